@@ -29,9 +29,9 @@ def cq_log(l):
 
 
 def cq_res(r):
-    return "(mkres %s %s %s %s %d)" % (RK[r["kind"]], C.cq_str(r["file"]), C.cq_z(r["ver"]),
-                                       C.cq_list([C.cq_list([C.cq_str(u) for u in g]) for g in r.get("apis") or []]),
-                                       r.get("weights", 0))
+    return "(mkres %s %s %s %s %d %s)" % (RK[r["kind"]], C.cq_str(r["file"]), C.cq_z(r["ver"]),
+                                          C.cq_list([C.cq_list([C.cq_str(u) for u in g]) for g in r.get("apis") or []]),
+                                          r.get("weights", 0), C.cq_opt(r.get("pt"), C.cq_z))
 
 
 def cq_rs(rs):
@@ -119,7 +119,7 @@ def case_to_coq(c):
 
 PRELUDE = """From NIC Require Import Base.SMap Reload.Model Reload.Cases.
 Definition mkfx w u b d := {| fx_weights := w; fx_uab := u; fx_batchrep := b; fx_endprep := d |}.
-Definition mkres k n v a w := {| r_kind := k; r_name := n; r_ver := v; r_apis := a; r_weights := w |}.
+Definition mkres k n v a w pt := {| r_kind := k; r_name := n; r_ver := v; r_apis := a; r_weights := w; r_pt := pt |}.
 Definition mktask k q w f rp ar pre mv al := {| t_kind := k; t_qlen := q; t_work := w; t_found := f; t_reports := rp; t_all_reports := ar; t_all_pre := pre; t_mainver := mv; t_all := al |}.
 """
 
